@@ -266,8 +266,36 @@ LIB['numpy.floor'] = _unary_float('floor', real_floor)
 LIB_DOC['numpy.floor'] = 'np.floor(x): largest integer <= x as float; NaN -> NaN; element-wise on arrays'
 LIB['numpy.ceil'] = _unary_float('ceil', real_ceil)
 LIB_DOC['numpy.ceil'] = 'np.ceil(x): smallest integer >= x as float; NaN -> NaN; element-wise on arrays'
-LIB['numpy.round'] = _unary_float('round', real_round_half_even)
-LIB_DOC['numpy.round'] = 'np.round(x): nearest integer, ties to even, as float; NaN -> NaN; element-wise'
+_round0 = _unary_float('round', real_round_half_even)
+
+
+def _np_round(interp, args, kwargs):
+    if len(args) == 2 or 'decimals' in kwargs:
+        x = args[0]
+        d = args[1] if len(args) == 2 else kwargs['decimals']
+        if not (isinstance(d, int) and not isinstance(d, bool) and 0 <= d <= 12):
+            raise Unsupported('np.round with symbolic / negative decimals')
+        if d == 0:
+            return _round0(interp, [x], {})
+        scale = 10 ** d
+
+        def one(v):
+            n, r = to_real_parts(v)
+            return SFloat(z3.ToReal(real_round_half_even(r * scale)) / scale, n, 'npfloat')
+        if isinstance(x, SArr):
+            return SArr(x.n, (lambda i, at=x.at: one(at(i))), 'float')
+        if is_numlike(x):
+            if is_concrete(x):
+                import numpy as np
+                return np.round(x, d)
+            return one(x)
+        raise Unsupported('np.round(x, d) of this value')
+    return _round0(interp, args, kwargs)
+
+
+LIB['numpy.round'] = _np_round
+LIB_DOC['numpy.round'] = ('np.round(x[, d]): nearest multiple of 10^-d (default d = 0), ties to even, as float; NaN -> NaN; '
+                          'element-wise (A-REAL: decimal scaling is exact)')
 
 
 @model('numpy.isnan', 'np.isnan(x): True iff x is NaN (False for ints); element-wise on arrays')
